@@ -59,6 +59,29 @@ CHECKS.update({
         "Tie: every accepted pair with options is re-spelled in all documented ways; a re-spelling is judged only if Coq's canon gives the same tokens; the implementation's variables must be identical, and every accepted result must contain every declared option key and every command key.",
    note=NOTE_DOC, technique="Coq proof (canonicalisation of spellings) + differential re-spelling sweep and shape check", design="5/C10"),
 })
+NOTE_ENG = (NOTE_COMMON + "Engine.v is a hand-written mirror of Context::exec / Task::exec / exec_module / exec_module_rendered / render_map / set_vars / include / main with the recorded deviations K2-K5 as boolean switches "
+            "(all on = the current code, all off = the property text); every case is run on the mirror, on the property-text switches and on the real `rash --output raw` binary. "
+            "The expression/template fragment (==, !=, not, and, or, is defined, {{ var }}) stands for minijinja and serde_yaml: trusted only on the generated fragment. ")
+CHECKS.update({
+ "C01": dict(
+   text="Theorems (all programs, stores, quirk settings, include runners): the first failing task ends the list - nothing after it contributes an event; a successful run is the chain of its tasks each run once in order from its predecessor's store; loops run one module execution per item in order and stop at the failing item; a false `when` has no effect; an ignored failure logs one record and keeps the store; exit status = outcome. K5 is refuted by witness. "
+        "Tie: ~1600 (quick) generated programs with every failure kind at every position x ignore_errors, stdout records, marker log, created files and exit status of the real binary vs the mirror, and vs the property-text switches to decide violations.",
+   note=NOTE_ENG, technique="Coq proof over an engine mirror (structural theorems) + differential runs of the real binary against mirror and property-text semantics", design="5/C01"),
+ "C02": dict(
+   text="Theorems: set_vars - latest write wins, other names untouched; modules other than set_vars/include return the store they got (task vars and rendered parameters never persist); register visible afterwards under its name only; skipped and ignored-failed tasks leave the store syntactically unchanged; with the property-text switches a loop restores the store. K2, K3, K4 refuted by witnesses. "
+        "Tie: random write/read histories with a probe after every step, -e overrides and child environment judged on the real binary.",
+   note=NOTE_ENG + "`name` and changed_when's effect on the ok/changed word are not observable in raw mode and are not checked; env handling is judged on the implementation only (not modelled).",
+   technique="Coq proof over an engine mirror (store lemmas) + differential history runs", design="5/C02"),
+ "C11": dict(
+   text="Theorems over the mirror of main: rejected arguments -> no event, non-zero exit; help -> only the help text, exit 0; a file with an invalid task at any position -> no event at all (parse_file validates the whole file first). "
+        "Tie: scripts with an invalid task of each kind at every position, non-sequence and syntactically broken files, rejected / help / valid argument vectors, on the real binary (marker log, stdout, exit status).",
+   note=NOTE_ENG + "docopt's decision itself is an input of the model (C07-C10 cover it); clap's handling of rash's own options is outside the property.",
+   technique="Coq proof over a mirror of main's control flow + fault placement runs on the real binary", design="5/C11"),
+ "C17": dict(
+   text="Theorems: inside an include the store is the caller's with rash.* naming the included file, afterwards rash.* is the caller's again; a failure inside fails the include task (then C01 applies); an invalid included file runs none of its tasks. K4 (writes inside are dropped) refuted by witness. "
+        "Tie: include chains of depth 1-3 through different directories, under loop/when/ignore_errors, with failures, invalid tasks and variable writes injected, rash.path/rash.dir printed at the start and end of every file.",
+   note=NOTE_ENG, technique="Coq proof over an engine mirror (include lemmas) + differential include-tree runs", design="5/C17"),
+})
 REASONS = {p: "not yet built in this revision (see DESIGN.md section 9b build order)" for p in ALL}
 
 def main():
